@@ -174,6 +174,9 @@ class CmdScenario(wfscn.ProgScenario):
                 if self.only_tasks is not None and \
                         tname not in self.only_tasks:
                     continue
+                n_same = sum(1 for x in ts if x[1] == tname)
+                if n_same > 1:
+                    tname = '%s.%s' % (tname, tid[-4:])
                 if self._allowed('rerun'):
                     out.append(self._mk('rerun', tname, self._engine_cmd(
                         'rerun_workflow', task_ex_id=tid, reset=True,
